@@ -281,6 +281,17 @@ int main(int argc, char** argv) {
   Rng g(seed_from_args(argc, argv));
   bool thorough = thorough_from_args(argc, argv);
   int N = thorough ? 15000 : 1200;
+  {
+    // known finding (found by the generic stream at the thorough budget, seed 4): shrinking at a convex vertex (interior angle
+    // about 147 degrees) leaves a result vertex 2.03 units from the ideal offset boundary - 0.6 % more than the property's
+    // tolerance (2 + 0.1 % |delta|); the same for every join type.  Its own generator, so that the record does not depend on the seed.
+    Rng gk(20260927);
+    PolyInput k;
+    k.paths = {Path64{Point64(49258, 40431), Point64(48478, 41534), Point64(48816, 40015), Point64(48959, 39870), Point64(49106, 40513)}};
+    k.group = {0}; k.S = 1100; k.kind = "kf"; k.outers = 1;
+    Params pk; pk.jt = 1; pk.delta = Q{-39, 8}; pk.ml = Q{6, 4}; pk.arc = Q{0, 4}; pk.rev = false; pk.negative_convention = false; pk.api = 0; pk.pointless_group = 0;
+    do_case(gk, k, pk, "kf.shrink_convex_vertex_notch");
+  }
   for (int i = 0; i < N; ++i) {
     PolyInput in;
     if (!gen_input(g, in)) { stat("gen.rejected"); continue; }
